@@ -58,7 +58,7 @@ func genHSPath(t *rapid.T) HSPath {
 	c.Secure = rapid.Bool().Draw(t, "secure")
 	c.HandshakeTimeoutMs = rapid.SampledFrom([]int{0, 0, 30000, 60000, 3600000}).Draw(t, "hto")
 	c.CtxDeadlineMs = rapid.SampledFrom([]int{0, 0, 45000, 50000, 7200000}).Draw(t, "ctx")
-	c.Negative = rapid.SampledFrom([]string{"", "", "", "bad-ws-reply", "bad-ext-reply", "proxy-refusal", "bad-cert"}).Draw(t, "negative")
+	c.Negative = rapid.SampledFrom([]string{"", "", "", "bad-ws-reply", "bad-ext-reply", "proxy-refusal", "bad-cert", "proxy-chatty", "alpn-h2"}).Draw(t, "negative")
 	c.Refusal = rapid.IntRange(0, len(refusals)-1).Draw(t, "refusal")
 	if c.Path == "upgrade" {
 		c.PreBuffered = rapid.SampledFrom([]int{0, 0, 5, 40}).Draw(t, "prebuf")
@@ -125,6 +125,17 @@ func (c HSPath) peerSpec() (PeerSpec, bool, *url.URL) {
 		}
 	case "bad-cert":
 		spec.BackendCert = "otherhost"
+	case "proxy-chatty":
+		// the proxy's 200 reply arrives together with further bytes (a stray
+		// CRLF): whether the client goes on or gives up is its business, what
+		// it does with the connection is not
+		if spec.ProxyKind == "http" || spec.ProxyKind == "https" {
+			spec.ProxyReply = "HTTP/1.1 200 Connection established\r\n\r\n\r\n"
+		}
+	case "alpn-h2":
+		// the application's tls.Config (shared with an http.Transport, say)
+		// offers h2 and the backend selects it
+		spec.BackendALPN = "h2"
 	}
 	spec.Stall = c.Stall
 	return spec, secure, proxyURL
@@ -135,6 +146,9 @@ func dialPath(c HSPath, fault *xport.PFault) *dialOutcome {
 	spec, secure, proxyURL := c.peerSpec()
 	out := &dialOutcome{}
 	d := websocket.Dialer{TLSClientConfig: &tls.Config{RootCAs: getPKI().pool}}
+	if c.Negative == "alpn-h2" {
+		d.TLSClientConfig.NextProtos = []string{"h2", "http/1.1"}
+	}
 	hook := func(ctx context.Context, network, addr string) (net.Conn, error) {
 		out.dialled++
 		if c.DialDelayMs > 0 {
@@ -227,8 +241,19 @@ func checkC16(c HSPath, o *Obs) error {
 		o.NonTrivial("negative")
 		return nil
 	}
+	if base.err != nil && (c.Negative == "proxy-chatty" || c.Negative == "alpn-h2") {
+		// giving up is allowed here; leaking the connection is not
+		if closed == 0 {
+			return fmt.Errorf("%s: handshake given up (%s: %v) but the dialed network connection was not closed (%d operations logged) - connection leak", c.Path, c.Negative, base.err, len(ops))
+		}
+		o.Class("negative_" + c.Negative + "_given_up")
+		return nil
+	}
 	if base.err != nil {
 		return fmt.Errorf("%s: fault-free Dial failed: %v (peer: %v)", c.Path, base.err, base.log.Errors)
+	}
+	if c.Negative == "proxy-chatty" || c.Negative == "alpn-h2" {
+		o.Class("negative_" + c.Negative + "_went_on")
 	}
 	if closed != 0 {
 		return fmt.Errorf("%s: Dial succeeded but the network connection was closed", c.Path)
